@@ -1,4 +1,5 @@
 import IstioModel.C04.Model
+import IstioModel.C04.Lemmas
 
 /-!
 # C04 - property theorems
@@ -13,24 +14,6 @@ subscription equals what the client last asked for."
 Every theorem quantifies over *all* states and requests (no bound on names, nonces, history).
 -/
 namespace IstioModel.C04
-
-/-- Membership view of `diff`. -/
-theorem mem_diff {a b : List String} {x : String} : x ∈ diff a b ↔ x ∈ a ∧ x ∉ b := by
-  simp [diff]
-
-theorem diff_isEmpty_iff {a b : List String} : (diff a b).isEmpty = true ↔ ∀ x ∈ a, x ∈ b := by
-  rw [List.isEmpty_iff]
-  constructor
-  · intro h x hx
-    by_cases hb : x ∈ b
-    · exact hb
-    · have : x ∈ diff a b := mem_diff.mpr ⟨hx, hb⟩
-      rw [h] at this; cases this
-  · intro h
-    apply List.eq_nil_iff_forall_not_mem.mpr
-    intro x hx
-    have := mem_diff.mp hx
-    exact this.2 (h x this.1)
 
 /-! ## Crash freedom -/
 
@@ -193,27 +176,6 @@ theorem always_respond_answers (s : State) (r : Req) (prev : WR)
   simp [halways]
 
 /-! ## Record = last request -/
-
-/-- `markWarming` never touches a type that is not a warming dependency. -/
-theorem markWarming_other (s : State) (ds : List Ty) (t : Ty) (h : t ∉ ds) :
-    markWarming s ds t = s t := by
-  induction ds generalizing s with
-  | nil => rfl
-  | cons d ds ih =>
-    simp only [markWarming]
-    have hd : t ≠ d := fun e => h (by simp [e])
-    have ht : t ∉ ds := fun e => h (by simp [e])
-    rw [ih _ ht]
-    cases hs : s d <;> simp [State.set, hd]
-
-theorem not_mem_warming_self (t : Ty) : t ∉ t.warming := by
-  cases t <;> simp [Ty.warming]
-
-theorem newWatched_self (s : State) (t : Ty) (names : List String) :
-    newWatched s t names t = some { names := names } := by
-  unfold newWatched
-  rw [markWarming_other _ _ _ (not_mem_warming_self t)]
-  simp
 
 /-- After a processed request that was neither a rejection (NACK) nor stale, the server's record
     for the type is exactly what the client asked for (names, as a list = as a set), or is absent
@@ -388,21 +350,6 @@ theorem delta_nack_sub_change_applied (s : State) (r : DReq) (prev : WR) (msg : 
           (some (deltaUpdateG true { prev with lastError := msg } r))) := by
   simp [shouldRespondDelta, shouldRespondDeltaG, deltaTail, herr, hprev, hc]
 
-theorem insertAll_nil (res : List String) (c : Bool) : insertAll res c [] = (res, c) := rfl
-theorem eraseAll_nil (res : List String) (c : Bool) : eraseAll res c [] = (res, c) := rfl
-
-theorem deltaUpdateG_always (d : Bool) (prev : WR) (r : DReq) : (deltaUpdateG d prev r).always = false := by
-  unfold deltaUpdateG
-  split <;> rfl
-
-theorem deltaUpdate_always (prev : WR) (r : DReq) : (deltaUpdate prev r).always = false :=
-  deltaUpdateG_always false prev r
-
-theorem deltaUpdateG_names (d : Bool) (prev : WR) (r : DReq) :
-    (deltaUpdateG d prev r).names = deltaNames prev r := by
-  unfold deltaUpdateG
-  split <;> rfl
-
 /-- Closed form of the current-nonce / spontaneous branch of `shouldRespondDelta`. -/
 theorem delta_fresh_branch (s : State) (r : DReq) (prev : WR)
     (herr : r.err = none) (hprev : s r.ty = some prev)
@@ -459,41 +406,6 @@ theorem delta_ack_silent (s : State) (r : DReq) (prev : WR)
   rw [this, halways]
   exact ⟨_, rfl⟩
 
-/-- `insertAll` reports a change exactly when it really adds a name. -/
-theorem insertAll_changed (res : List String) (c : Bool) (xs : List String) :
-    (insertAll res c xs).2 = (c || xs.any (fun x => !res.contains x)) := by
-  induction xs generalizing res c with
-  | nil => simp [insertAll]
-  | cons x xs ih =>
-    simp only [insertAll]
-    by_cases h : res.contains x = true
-    · simp only [h, if_true, ih, List.any_cons, Bool.not_true, Bool.false_or]
-    · have hf : res.contains x = false := by simpa using h
-      simp only [hf, Bool.false_eq_true, if_false, ih, List.any_cons, Bool.not_false, Bool.true_or, Bool.or_true]
-
-theorem insertAll_changed_mono (res : List String) (xs : List String) :
-    (insertAll res true xs).2 = true := by
-  rw [insertAll_changed]; simp
-
-theorem eraseAll_changed_mono (res : List String) (xs : List String) :
-    (eraseAll res true xs).2 = true := by
-  induction xs generalizing res with
-  | nil => rfl
-  | cons x xs ih =>
-    simp only [eraseAll]
-    split <;> exact ih _
-
-/-- `deltaWatchedResources` reports a change whenever a subscribed name was not on record. -/
-theorem deltaWatched_changed_of_new (names : List String) (r : DReq)
-    (x : String) (hx : x ∈ r.sub) (hnew : x ∉ names) : (deltaWatched names r).2.2 = true := by
-  unfold deltaWatched
-  have h1 : (insertAll names false r.sub).2 = true := by
-    rw [insertAll_changed]
-    simp only [Bool.false_or, List.any_eq_true]
-    exact ⟨x, hx, by simpa using hnew⟩
-  simp only [h1]
-  rw [insertAll_changed_mono, eraseAll_changed_mono]
-
 /-- A delta request subscribing to a name the server has no record of is answered
     (for types whose name set is recorded). -/
 theorem delta_added_names_respond (s : State) (r : DReq) (prev : WR)
@@ -509,19 +421,6 @@ theorem delta_added_names_respond (s : State) (r : DReq) (prev : WR)
     exact deltaWatched_changed_of_new prev.names r x hx hnew
   rw [this]
   exact ⟨_, rfl⟩
-
-theorem deltaTail_clean (d : Bool) (s : State) (prev : WR) (r : DReq) (b : Bool) (s' : State)
-    (h : deltaTail d s prev r = .out b s') : ∃ w, s' r.ty = some w ∧ w.always = false := by
-  unfold deltaTail at h
-  injection h with _ hs
-  exact ⟨_, by rw [← hs]; simp, deltaUpdateG_always d prev r⟩
-
-theorem deltaFirst_clean (s : State) (r : DReq) (b : Bool) (s' : State)
-    (h : deltaFirst s r = .out b s') : ∃ w, s' r.ty = some w ∧ w.always = false := by
-  unfold deltaFirst at h
-  injection h with _ hs
-  subst hs
-  exact ⟨_, State.set_same _ _ _, rfl⟩
 
 /-- Whenever a delta request is answered the forced-response flag is consumed. -/
 theorem delta_responded_state_clean (s : State) (r : DReq) (s' : State)
@@ -583,79 +482,6 @@ theorem delta_no_loop (s : State) (r : DReq) (s1 : State)
       { w with names := nn, nonceSent := n } rfl hs2 rfl hal rfl rfl rfl
 
 /-! ## Delta: the record is the fold of the subscribe / unsubscribe history -/
-
-theorem mem_insertAll (res : List String) (c : Bool) (xs : List String) (x : String) :
-    x ∈ (insertAll res c xs).1 ↔ x ∈ res ∨ x ∈ xs := by
-  induction xs generalizing res c with
-  | nil => simp [insertAll]
-  | cons y ys ih =>
-    simp only [insertAll]
-    by_cases h : res.contains y = true
-    · simp only [h, if_true, ih, List.mem_cons]
-      constructor
-      · rintro (h1 | h1)
-        · exact Or.inl h1
-        · exact Or.inr (Or.inr h1)
-      · rintro (h1 | h1 | h1)
-        · exact Or.inl h1
-        · subst h1; exact Or.inl (by simpa using h)
-        · exact Or.inr h1
-    · have hf : res.contains y = false := by simpa using h
-      simp only [hf, Bool.false_eq_true, if_false, ih]
-      simp [or_assoc]
-
-theorem mem_eraseAll (res : List String) (c : Bool) (xs : List String) (x : String) :
-    x ∈ (eraseAll res c xs).1 ↔ x ∈ res ∧ x ∉ xs := by
-  induction xs generalizing res c with
-  | nil => simp [eraseAll]
-  | cons y ys ih =>
-    simp only [eraseAll]
-    by_cases h : res.contains y = true
-    · simp only [h, if_true, ih, List.mem_filter, List.mem_cons, not_or]
-      constructor
-      · rintro ⟨⟨h1, h2⟩, h3⟩
-        exact ⟨h1, by simpa using h2, h3⟩
-      · rintro ⟨h1, h2, h3⟩
-        exact ⟨⟨h1, by simpa using h2⟩, h3⟩
-    · have hf : res.contains y = false := by simpa using h
-      simp only [hf, Bool.false_eq_true, if_false, ih, List.mem_cons, not_or]
-      constructor
-      · rintro ⟨h1, h3⟩
-        refine ⟨h1, ?_, h3⟩
-        intro e
-        subst e
-        have : x ∉ res := by simpa using hf
-        exact this h1
-      · rintro ⟨h1, _, h3⟩
-        exact ⟨h1, h3⟩
-
-/-- `deltaWatchedResources` as a set: everything on record, subscribed or reported as retained,
-    minus what is unsubscribed, minus the synthetic `*`. -/
-theorem mem_deltaWatched (existing : List String) (r : DReq) (x : String) :
-    x ∈ (deltaWatched existing r).1 ↔
-      ((x ∈ existing ∨ x ∈ r.sub ∨ x ∈ r.init) ∧ x ∉ r.unsub ∧ x ≠ "*") := by
-  unfold deltaWatched
-  simp only []
-  generalize hl : (eraseAll (insertAll (insertAll existing false r.sub).fst (insertAll existing false r.sub).snd r.init).fst
-      (insertAll (insertAll existing false r.sub).fst (insertAll existing false r.sub).snd r.init).snd r.unsub).fst = l
-  have hmem : x ∈ l ↔ (x ∈ existing ∨ x ∈ r.sub ∨ x ∈ r.init) ∧ x ∉ r.unsub := by
-    rw [← hl, mem_eraseAll, mem_insertAll, mem_insertAll]
-    simp [or_assoc]
-  by_cases hc : l.contains "*" = true
-  · simp only [hc, if_true, List.mem_filter]
-    rw [hmem]
-    simp [and_assoc]
-  · simp only [hc, Bool.false_eq_true, if_false]
-    rw [hmem]
-    have hstar : "*" ∉ l := by simpa using hc
-    constructor
-    · rintro ⟨h1, h2⟩
-      refine ⟨h1, h2, ?_⟩
-      intro e
-      subst e
-      exact hstar (hmem.mpr ⟨h1, h2⟩)
-    · rintro ⟨h1, h2, _⟩
-      exact ⟨h1, h2⟩
 
 /-- **Record = what the client asked for (delta).**  After ANY delta request that is not a rejection
     and is not dropped - current nonce, empty nonce, or a stale ACK that carries a subscription change -
